@@ -61,16 +61,27 @@ def make(n_requests: int):
                         viols.append((f"receive-path-raises:{type(exc).__name__}:{label.split('(')[0]}", f"{label}: {exc!r}; events={events}"))
                         return
                     if is_data:
-                        # the client's T_ACK goes out from a background task: look at the bus a moment later
-                        loop.call_later(0.0004, post_check, label, src, seq, pre_e, pre_done, open_, n_sent, conn)
-
-                def post_check(label: str, src: int, seq: int, pre_e: Any, pre_done: Any, open_: bool, n_sent: int, conn: Any) -> None:
-                    if True:
-                        acks = [t for _, t in sent[n_sent:] if isinstance(t.tpci, T.TAck) and t.destination_address == IndividualAddress(src) and t.tpci.sequence_number == seq]
+                        # the client's T_ACK goes out from a background task: look at the bus a moment later.  Data frames with the
+                        # same number arriving at the same instant (a response and its duplicate) cannot be told apart by their
+                        # acknowledgements on the bus: they are judged together, at the check of the first one.
                         want_ack = bool(open_ and seq in (pre_e, (pre_e - 1) % 16))
-                        if len(acks) != int(want_ack) or any(a.tpci.sequence_number != seq for a in acks):
-                            why = "no-open-connection" if not open_ else "number-neither-expected-nor-preceding" if not want_ack else "missing-or-wrong-number"
-                            viols.append((f"t-ack-wrong:{why}", f"{label}: connection open={open_} expected={pre_e}: client sent {[a.tpci for a in acks]}, reference {'T_ACK(%d)' % seq if want_ack else 'nothing'}; events={events}"))
+                        gkey = (src, seq, round(loop.time(), 6))
+                        first = gkey not in groups
+                        g = groups.setdefault(gkey, {"want": 0, "n_sent": n_sent, "labels": []})
+                        g["want"] += int(want_ack)
+                        g["labels"].append(label)
+                        loop.call_later(0.0004, post_check, label, src, seq, pre_e, pre_done, open_, gkey if first else None, conn, want_ack)
+
+                groups: dict[Any, dict[str, Any]] = {}
+
+                def post_check(label: str, src: int, seq: int, pre_e: Any, pre_done: Any, open_: bool, gkey: Any, conn: Any, want_ack: bool) -> None:
+                    if True:
+                        if gkey is not None:
+                            g = groups[gkey]
+                            acks = [t for _, t in sent[g["n_sent"]:] if isinstance(t.tpci, T.TAck) and t.destination_address == IndividualAddress(src) and t.tpci.sequence_number == seq]
+                            if len(acks) != g["want"]:
+                                why = "no-open-connection" if not open_ else "number-neither-expected-nor-preceding" if not want_ack else "missing-or-wrong-number"
+                                viols.append((f"t-ack-wrong:{why}", f"{' + '.join(g['labels'])}: connection open={open_} expected={pre_e}: client sent {[a.tpci for a in acks]}, reference {g['want']} x T_ACK({seq}); events={events}"))
                         if open_:
                             accepted = conn._expected_sequence_number != pre_e  # noqa: SLF001
                             want_acc = seq == pre_e and not pre_done
@@ -217,7 +228,7 @@ SCENARIOS = {"p2p": make}
 
 
 def run(ctx: Ctx) -> None:
-    bound = 3 if ctx.thorough else 2
+    bound = 4 if ctx.thorough else 2
     ctx.rule = (
         f"real Management + P2PConnection over a fake cEMI layer (L_Data.con immediate): connect, 1-3 requests (A_DeviceDescriptor_Read), disconnect; for every numbered data frame the simulated device "
         f"chooses an acknowledgement from {ACKS} and a reaction from {RESPS} (frames delivered through the real handle_raw_cemi, ack and response in the same loop iteration by default); EVERY schedule "
